@@ -261,11 +261,17 @@ func (r *schemaLoader) deref(input interface{}, parentRefs []string, basePath st
 		return nil
 	}
 
-	if err := r.resolveRef(ref, input, basePath); r.shouldStopOnError(err) {
+	// the target is decoded over the holder: clear the holder's $ref first, so that a target without $ref
+	// can be told from a target whose $ref reads the same (but is relative to the document it is found in)
+	followed := *ref
+	*ref = Ref{}
+	err := r.resolveRef(&followed, input, basePath)
+	if r.shouldStopOnError(err) {
+		*ref = followed
 		return err
 	}
 
-	if ref.String() == "" || ref.String() == curRef {
+	if err != nil || ref.String() == "" {
 		// done with rereferencing: leave the last $ref followed in a form that
 		// reads the same from any base path
 		*ref = *normalizedRef
